@@ -11,6 +11,7 @@ import M4riProofs.GenTieAlg
 import M4riProofs.GenTieTab
 import M4riProofs.GenTieDuff
 import M4riProofs.GenTieTriFinal
+import M4riProofs.GenTieVa
 namespace M4ri.Props.C13
 open M4ri M4ri.Mzd
 
@@ -182,3 +183,9 @@ end M4ri.Props.C13
 #check @M4ri.GenTieTri.blocked_eq
 #check @M4ri.GenTieTriFinal.mzdApplyPRightTransTri_eq
 #check @M4ri.GenTieTriFinal.mzdApplyPRightTransTri_liftTri
+
+/-! ### `mzd_combine` ON THE C TEXT (GenTieVa.lean): the dispatch `(C == A) & (a_row == c_row) & (a_startblock == c_startblock)` to the in-place
+    variant, the three-operand variant otherwise — also when `A` is the destination itself on another row or block -/
+#check @M4ri.GenTieVa.mzdCombine_inplace_eq
+#check @M4ri.GenTieVa.mzdCombine_even_eq
+#check @M4ri.GenTieVa.mzdCombine_even_alias_eq
